@@ -2,7 +2,7 @@
 //! recording, and the one-line machine-readable report consumed by `vh/src/bin/c12.rs` / `c14.rs`.
 //!
 //! Protocol (`<exe> list` / `<exe> run <body> --preemptions <n|unbounded> [--max-secs <s>]`):
-//!   list -> one line per body: `BODY {"name":..,"threads":..,"ops":..}`
+//!   list -> one line per body: `BODY {"name":..,"threads":..,"ops":..,"kinds":..}`
 //!   run  -> exactly one line  `LOOM {json}` with body, preemption_bound, iterations, complete, outcomes (map
 //!           outcome -> count), expected (all outcomes the reference allows), unseen (expected but never observed),
 //!           verdict ("ok"|"violated"), violations (first few: iteration number in loom's deterministic DFS order,
@@ -33,6 +33,8 @@ pub struct BodyInfo {
     pub name: &'static str,
     pub threads: usize,
     pub ops: String,
+    /// entry points exercised concurrently (coarse; becomes the violation signature's `ops` feature)
+    pub kinds: String,
 }
 
 #[derive(Default)]
@@ -150,6 +152,6 @@ pub fn parse_args() -> Cmd {
 
 pub fn print_list(bodies: &[BodyInfo]) {
     for b in bodies {
-        println!("BODY {}", json!({"name": b.name, "threads": b.threads, "ops": b.ops}));
+        println!("BODY {}", json!({"name": b.name, "threads": b.threads, "ops": b.ops, "kinds": b.kinds}));
     }
 }
